@@ -590,13 +590,14 @@ def library_items(repo, thy_names):
             yield name, it
 
 
-def stream_library(ctx, impl, sig, oracle, thy_name, limit):
+def stream_library(ctx, impl, sig, oracle, thy_name, limit, tables=None):
     """Every statement of the library file `thy_name` (parsed in the theory that contains it):
     parse -> print -> parse must give the same term."""
     from harness.props import c07_gen as G
     rng = ctx.rng("library/" + thy_name)
     items = [it for _, it in library_items(ctx.repo, [thy_name])]
     n = 0
+    parsed = []
     for it in items:
         if n >= limit:
             break
@@ -621,6 +622,13 @@ def stream_library(ctx, impl, sig, oracle, thy_name, limit):
             n += 1
             oracle.check(t, pick_settings(rng, n, full_every=8), "library", nontrivial=t.size() >= 5, extra={"item": it.get("name")})
             ctx.count("library:%s" % thy_name)
+            parsed.append(t)
+    if tables is not None and parsed:
+        try:
+            from harness.props.c07_lean import library_correspondence
+        except ImportError:
+            return
+        library_correspondence(ctx, impl, sig, tables[0], tables[1], parsed)
 
 
 # ---------------------------------------------------------------- types
@@ -1336,7 +1344,11 @@ def run(ctx):
         marks.append(("item", time.time()))
         stream_memo(ctx, impl, sig, oracle, scale(60, 600))
         marks.append(("memo", time.time()))
-        stream_library(ctx, impl, sig, oracle, thy_name, ctx.scale(150, 100000))
+        stream_library(ctx, impl, sig, oracle, thy_name, ctx.scale(150, 100000), tables=(ops, binders))
+        if thy_name == "interval_arith" and ctx.tier == "quick":
+            # the library files with most interval literals {m..n} (imported by this theory): their statements, too
+            for extra in ("iterate", "sums"):
+                stream_library(ctx, impl, sig, oracle, extra, ctx.scale(150, 100000), tables=(ops, binders))
         stream_many_annotations(ctx, impl, sig, oracle)
         marks.append(("library", time.time()))
         correspondence(ctx, impl, sig, oracle, ops, binders, levels, scale(150, 2000))
@@ -1359,7 +1371,7 @@ def run(ctx):
                 continue
             sig = G.Sig(ctx.repo, thy_name, impl.api_parse_type)
             oracle = Oracle(ctx, impl, sig, keywords)
-            stream_library(ctx, impl, sig, oracle, thy_name, 100000)
+            stream_library(ctx, impl, sig, oracle, thy_name, 100000, tables=(ops, binders))
 
 
 def correspondence(ctx, impl, sig, oracle, ops, binders, levels, n):
@@ -1499,7 +1511,7 @@ MANIFEST = {
     "text": "Lean theorems over regenerated tables (operator/binder table of syntax/operator.py, lambda spelling of pprint.py, rule ladder and ALL literal "
             "terminals of the grammar in syntax/parser.py). TERMS (precedence core: operators in all positions, prefix operators, application, binders "
             "-- printed one by one, the printer does not collapse `!a. !b.` --, if-then-else, atoms incl. numerals; negative numerals and fractions are "
-            "prefix minus and `/`; let is an application; TYPE ANNOTATIONS `(t::T)` around any subterm and `%x::T. t` on any binder -- whichever the printer chooses, the theorems hold for every choice, parse_print_annotated): parse_print (tokens), lex_print (TEXT without line limit -> tokens, model of Lark's standard "
+            "prefix minus and `/`; let is an application; TYPE ANNOTATIONS `(t::T)` around any subterm and `%x::T. t` on any binder -- whichever the printer chooses, the theorems hold for every choice, parse_print_annotated; the LITERALS `{m..n}` (interval, any terms as bounds, written without blanks or brackets) and `{x. P}` / `{x::T. P}` (set comprehension, body never bracketed), themselves bracketed as an argument, parse_print_literals): parse_print (tokens), lex_print (TEXT without line limit -> tokens, model of Lark's standard "
             "lexer, names NameOK), parse_print_text (composition), broken_same_tokens / parse_print_broken (every layout that keeps each separating "
             "blank, adds arbitrary whitespace after it and writes a whitespace run before `else` -- what print_ast does for every line width -- lexes to "
             "the same tokens). TYPES: type_parse_print (tokens), type_lex_print (text of print_type -> tokens), type_parse_print_text. SEQUENTS: "
@@ -1508,14 +1520,17 @@ MANIFEST = {
             "TextOK, TypeTextOK, SeqOK, SeqTextOK, InstOK) that are discharged by `decide` for the regenerated tables on every run. Every model is tied "
             "to the real code on every run: model text == real text (terms, types, sequents), real line-broken texts matched against printTextW by the "
             "driver, model lexer == Lark's real token stream, model parsers == parse_term / parse_type / parse_thm / parse_inst, NameOK checked by the "
-            "driver. The property itself (12 settings, memo histories within one theory, across theory changes and across IN-PLACE extensions of the current theory object by a constant named like a bound name / its printed variant / a free variable / nothing, proof items) is checked by round trip on type-directed "
+            "driver; every library statement whose term is inside the modelled core (3754 of the 3920 that parse; 3460 before intervals and comprehension were modelled, 3625 with intervals alone) has model text == real text and model lexer+parser on the real text == projection of the term (quick tier: the statements of the loaded files plus iterate and sums; thorough: all files). The property itself (12 settings, memo histories within one theory, across theory changes and across IN-PLACE extensions of the current theory object by a constant named like a bound name / its printed variant / a free variable / nothing, proof items) is checked by round trip on type-directed "
             "generated terms and all library statements.",
     "note": "Trusted: Lean kernel, propext/Classical.choice/Quot.sound; the harness generator, its own alpha-equality and type checker; the regex/ast reader "
             "of grammar, operator.py and pprint.py; Lark's LALR tables. NOT covered by a theorem (run-time round trip / correspondence only): WHICH subterms "
             "infer_printed_type annotates and that this suffices for type inference (the annotation SYNTAX is inside the theorems; real annotated prints "
             "are fed to the model parser on every run: skeleton with annotations erased == projection of the term, annotation types == the printer's); "
-            "the literal syntaxes, by frequency in the library statements: intervals {m..n} (180 of 3997), set comprehension (151), set literals (132), "
-            "function update (21), list literals (8), char/string (0); the text level of instantiations and "
+            "the literal syntaxes other than intervals and set comprehension, by frequency in the library statements (of 3997): set literals `{a, b}` / `{}` (132), "
+            "function update (21), list literals (8), char/string (0) -- the model's rule for `{` reads one term and then `..` term `}`, or, if that term is "
+            "an identifier, `. ` term `}` / `::` type `. ` term `}`; it rejects set literals (counted as outside the core); it is laxer than the grammar on "
+            "texts the printer never writes (`{(x). P}`), and stricter on an interval or comprehension directly as an argument, `f {m..n}`, which Lark "
+            "accepts (the printer always brackets it; parse_print_literals is about printed texts); the text level of instantiations and "
             "proof items (inst_parse_print is about tokens; the argument signatures of export_proof_item / parse_proof_rule are oracle only); the "
             "CONTEXTUAL restriction of Lark's lexer (the model is the standard lexer; they differ only on texts that NameOK / the printer's spacing "
             "exclude); the link term <-> skeleton (projection in the harness: names that are constants of the theory, binder renaming, over-applied "
